@@ -38,16 +38,32 @@ Proof.
 Qed.
 Print Assumptions C05_advance_marks.
 
-(* a rejected or timed-out save forgets nothing: positions unchanged, the marks it had taken are back,
-   marks made meanwhile are kept, the flag is up -- so the next successful save stores them (C05_durable) *)
+(* a rejected or timed-out save forgets nothing: positions and store unchanged, and every mark -- those it
+   had taken and those made meanwhile -- is back in the dirty set or already in the hands of the next
+   Save() that was waiting for the lock; so the next successful save stores them (C05_durable) *)
 Theorem C05_failed_save_keeps : forall s dump dl,
   s_failed s = false -> s_inflight s = Some (dump, dl) ->
   let s' := fst (step s (SaveEnd false)) in
-  s_inflight s' = None /\ s_offs s' = s_offs s /\ s_store s' = s_store s /\ s_any_dirty s' = true /\
-  (forall vb, In vb dl -> s_dirty s' vb = Some true) /\
-  (forall vb, s_dirty s vb = Some true -> s_dirty s' vb = Some true).
+  s_offs s' = s_offs s /\ s_store s' = s_store s /\
+  (forall vb, vb <= 1023 -> In vb dl \/ s_dirty s vb = Some true ->
+     s_dirty s' vb = Some true \/ exists dump' dl', s_inflight s' = Some (dump', dl') /\ In vb dl') /\
+  (s_queued s = 0%nat -> s_inflight s' = None /\ s_any_dirty s' = true).
 Proof. exact save_end_fail_spec. Qed.
 Print Assumptions C05_failed_save_keeps.
+
+(* a Save() issued while another one is in flight is not lost: it waits, and runs its own dump as soon as
+   the first returns (so positions acknowledged during the first store call are written by it) *)
+Theorem C05_queued_save_runs : forall s dump dl ok,
+  s_failed s = false -> s_inflight s = Some (dump, dl) -> s_any_dirty s = true ->
+  let s1 := fst (step s SaveQueue) in
+  snd (step s SaveQueue) = [] /\ s_queued s1 = S (s_queued s) /\
+  exists dump' dl', snd (step s1 (SaveEnd ok)) = [MetaSave dump' dl'].
+Proof.
+  intros s dump dl ok F I A. unfold step at 1 2 3. rewrite F, I, A. cbn [negb fst snd]. split; [reflexivity|]. split; [reflexivity|].
+  unfold step. cbn [s_failed set_queued s_inflight]. rewrite F, I.
+  destruct ok; unfold next_queued; cbn [s_queued set_inflight set_store set_dirty set_queued]; unfold save_body; cbn [snd]; eauto.
+Qed.
+Print Assumptions C05_queued_save_runs.
 
 (* a save issued when nothing changed performs no write: the store is not even called *)
 Theorem C05_nothing_changed_no_write : forall s,
